@@ -47,6 +47,7 @@ class Profile:
         self.use_uid = kw.get("use_uid", True)
         self.self_join_p = kw.get("self_join_p", 0.15)
         self.pair_keys_p = kw.get("pair_keys_p", 0.0)  # probability that a join uses differently named key columns
+        self.null_tests = kw.get("null_tests", ["is_null", "is_bad"])
 
 
 class St:
@@ -235,7 +236,7 @@ class Gen:
             cols = st.cols(("i", "f", "s"))
             if cols:
                 c = rng.choice(cols)
-                m = "is_null" if st.kinds[c] == "s" else rng.choice(["is_null", "is_bad"])
+                m = "is_null" if st.kinds[c] == "s" else rng.choice(getattr(self.p, "null_tests", ["is_null", "is_bad"]))
                 return ["m", m, ["col", c], []], "b"
         if r < 0.64 and bcols:
             return ["col", rng.choice(bcols)], "b"
